@@ -17,6 +17,6 @@ PROP = {
 
 TEXT = {
     "technique": "property-based testing: round trip through the real byte-by-byte receivers + independent reference frame encoder, CRC-steered and marker-heavy payload generators, random iovec partitions, exhaustive short payloads over the marker alphabet, exact heap buffers under ASan/UBSan, libFuzzer in thorough",
-    "level": "Generated-input exploration: payloads (uniform, marker-only, marker-heavy, runs; last byte solved so that the CRC-8 itself is a marker or the escape byte) are encoded by every encoder variant of the configurable codec (both alphabets: caller buffer, iovec with 1..6 pieces incl. empty ones, both self-sizing vector overloads) and by the legacy C encoder into buffers of exactly the stuffed length, compared byte for byte with an independent reference frame, checked for start/stop markers, no raw marker inside, valid escapes and the 2n+4 bound, then fed byte by byte to a fresh receiver with capacity n+2..n+64: CONTINUE on every byte but the last, NEWPACKAGE on the last, content == payload, and the same receiver then decodes a second frame. All payloads of length <= 3 (5 in thorough) over {START,STOP,STUB,codes,'a'} are enumerated for the three codecs. Nothing is established beyond the explored inputs. The empty payload is also given as zero iovec pieces.",
+    "level": "Generated-input exploration: payloads (uniform, marker-only, marker-heavy, runs; last byte solved so that the CRC-8 itself is a marker or the escape byte) are encoded by every encoder variant of the configurable codec (both alphabets: caller buffer, iovec with 1..6 pieces incl. empty ones, both self-sizing vector overloads) and by the legacy C encoder into buffers of exactly the stuffed length, compared byte for byte with an independent reference frame, checked for start/stop markers, no raw marker inside, valid escapes and the 2n+4 bound, then fed byte by byte to a fresh receiver with capacity n+2..n+64: CONTINUE on every byte but the last, NEWPACKAGE on the last, content == payload, and the same receiver then decodes a second frame. All payloads of length <= 3 (5 in thorough) over {START,STOP,STUB,codes,'a'} are enumerated for the three codecs. Nothing is established beyond the explored inputs. The empty payload is also given as zero iovec pieces. A further target encodes mostly plain payloads of 100..300 bytes with 0..2 markers at the first, last, last-but-one or a drawn position.",
     "note": "Trusted: the harness' reference stuffing/CRC-8 (bit-serial) written from the protocol description; legacy receiver content = raw line minus its trailing CRC byte (its API exposes only the raw line); clang ASan/UBSan.",
 }
